@@ -237,3 +237,8 @@ def run(ctx, eng):
            '(found %s): after an upgrade the client continues with 3, the '
            'server with 2' % vals, node=fi.node)
     ctx.assume('hyperframe\'s serialize_body/parse_body are inverse')
+    cm.include(ctx, eng, 'C09', {'ORD.id-bookkeeping', 'ARITH.id-low',
+                                 'OWN.creators'},
+               'stream 1 is used up by the upgrade on both sides: every '
+               'creation path records the id in the watermark of its '
+               'direction')
